@@ -169,11 +169,13 @@ def validate_req(ctx, tr, label, cases):
     # (done inside vp.validate via kf passes)
 
 
-def pipeline_mc(ctx, quick):
+def pipeline_mc(ctx, quick, history=False):
+    """the pipeline machine's invariants; histories sharing one provider only where the property is about them"""
     mc(ctx, "SigV4", "MC_SigV4_pairs.cfg", label="pairs")
     if not quick:
         mc(ctx, "SigV4", "MC_SigV4_full.cfg", label="full")
-    mc(ctx, "SigV4", "MC_SigV4_hist2.cfg" if quick else "MC_SigV4_hist.cfg", label="history")
+    if history:
+        mc(ctx, "SigV4", "MC_SigV4_hist2.cfg" if quick else "MC_SigV4_hist.cfg", label="history")
     for inv in ("NeverOk", "NeverProviderErr", "NeverScopeErr"):
         mc(ctx, "SigV4", "MC_SigV4_%s.cfg" % inv, expect_violation=inv, label="reach-" + inv)
 
@@ -194,7 +196,7 @@ def C13(ctx):
 
 def C14(ctx):
     q = ctx.quick
-    pipeline_mc(ctx, q)
+    pipeline_mc(ctx, q, history=True)
     mc(ctx, "SigV4", "MC_SigV4_live.cfg", label="liveness")
     req_campaign(ctx, [("scripts", 0), ("defects", 1)])
     return dict(
